@@ -57,7 +57,13 @@ def eval_spec(spec: dict, monitor: Callable, n_random: int, max_bits: int, vseed
     lines, the monitor's verdict, statistics.  The monitor sees every simulated valuation (all of them when
     the circuit has at most `max_bits` one-bit inputs); the Lean model is compared on `n_lean` of them
     (all-zeros, all-ones and a seeded sample), the first `N_FULL_VALS` with the per-cycle validator."""
-    b = sg.build(spec)
+    try:
+        b = sg.build(spec)
+    except sg.RealCodeError as e:
+        # the library raised while a generated (well-formed) circuit was elaborated: a concrete failing input
+        return {"lean_in": [], "impl_out": [], "reject": "raise", "reject_msg": str(e), "viol": None if spec.get("expect") == "any"
+                else f"the real code raised while elaborating a well-formed circuit: {e}", "viol_val": None, "nvals": 0, "nlean": 0,
+                "exhaustive": False, "names": {}, "stats": {}}
     out = {
         "lean_in": [sg.cfg_line(b, full_static)],
         "impl_out": [sg.summary_line(b, full_static)],
@@ -291,7 +297,7 @@ def run_simul(ctx: Check, pid: str, gen: Callable, monitor: Callable, directed: 
         ctx.violation(
             f"{r['viol']}",
             {"spec": r["spec"], "valuations": [r["viol_val"]] if r.get("viol_val") is not None else None,
-             "impl_observation": r.get("viol_obs") or r["impl_out"][0], "names": r["names"]},
+             "impl_observation": r.get("viol_obs") or (r["impl_out"] or [r.get("reject_msg", "")])[0], "names": r["names"]},
         )
     if fails:
         ctx.count("monitor_failures", len(fails))
@@ -398,6 +404,10 @@ def _spec_features(spec: dict) -> set:
                     walk(b["block"], depth + 1, in_method)
             elif s["k"] == "call" and s.get("en") is not None:
                 out.add("conditional_call")
+            elif s["k"] in ("if", "switch", "fsm"):
+                out.add(f"calls_inside_{s['k']}")
+                for blk in sg.inner_blocks(s):
+                    walk(blk, depth, in_method)
 
     for it, guard in sg.flat_items(spec):
         walk(it["block"], 0, it["k"] == "method")
